@@ -488,7 +488,9 @@ class FSM(addons.AddonPersistence, block.SBlock):
                 assert self._state is not block.UNDEF   # because is_initialized
                 self._run_cb('exit', self._state)
                 self._send_events('on_exit')
-                self._stop_timer()
+            # the timer of a timed state runs even if the FSM has no output yet
+            # (calc_output returned UNDEF); leaving the state must cancel it
+            self._stop_timer()
             assert self._next_event is None
             for _ in range(self._ct_chainlimit):
                 if self._next_event:
